@@ -1,4 +1,4 @@
-# F14: close() of a generated generator class uses a possibly-NULL `GeneratorExit` lookup
+# F14 (fixed in /repo 056ac7e): close() of a generated generator class must be accepted now
 from typing import Iterator
 
 def gen(n: int) -> Iterator[int]:
